@@ -31,7 +31,9 @@ RULE = (
     "requires sets (with/without allowed values), xor groups (with/without None) and a templated "
     "output-file argument; kind python: function of 1-4 typed arguments int/str/float/bool/"
     "list[int] (optional or not, defaults, help, allowed_values, requires, xor) with one or two "
-    "outputs; plus one value assignment). Non-trivial = the definition carries at least one "
+    "outputs; kind rules: a definition of the C31 generator (bool/Optional[bool]/Optional[str]/"
+    "mandatory fields with requires alternatives and xor groups) as a python task; plus one value "
+    "assignment). Non-trivial = the definition carries at least one "
     "non-default piece of metadata beyond name/type (default, help, position, sep, argstr, "
     "allowed_values, requires, xor, output) and >= 2 fields; distinct = canonical case."
 )
@@ -40,7 +42,8 @@ ASSUMPTIONS = [
     "type objects stay Python objects in the dictionary, so the JSON leg only runs for the rare "
     "definitions whose dictionary is JSON-able (counted as json_leg)",
     "python functions are compared by identity (the dictionary holds the function object)",
-    "outcome equality for failing inputs = same exception type and message",
+    "outcome equality for failing inputs = same exception type and message (the comma/line "
+    "separated parts of the message compared as a multiset: xor members are listed in set order)",
     "definitions pydra rejects at definition time (overlapping positions, rule references) are "
     "skipped and counted",
 ]
@@ -81,6 +84,30 @@ def build_python(spec):
     return python.define(fn, inputs=inputs, outputs=outputs, xor=[list(x) for x in spec.get("xor", [])])
 
 
+def build_rules(spec):
+    """python task for a definition spec of the C31 generator (vlib/gen/rules.py, format in
+    vlib/ref/rules.py)"""
+    from pydra.compose import python
+
+    kinds = {"bool": (bool, False), "optbool": (bool | None, None), "optstr": (str | None, None),
+             "str": (str, ...), "mbool": (bool, ...)}
+    names = [f["name"] for f in spec["fields"]]
+    ns: dict = {}
+    exec(f"def Rules({', '.join(names)}):\n    return [{', '.join(names)}]\n", ns)  # noqa: S102
+    inputs = {}
+    for f in spec["fields"]:
+        tp, default = kinds[f["kind"]]
+        kw = dict(type=tp)
+        if default is not ...:
+            kw["default"] = default
+        if f.get("requires"):
+            kw["requires"] = [[(t if allowed is None else (t, list(allowed))) for t, allowed in rs]
+                              for rs in f["requires"]]
+        inputs[f["name"]] = python.arg(**kw)
+    return python.define(ns["Rules"], inputs=inputs, outputs=["out"],
+                         xor=[list(g) for g in spec.get("xor", [])] or ())
+
+
 # ---------------------------------------------------------------------------- comparison
 def field_diffs(T, T2, outputs=False):
     import attrs
@@ -118,20 +145,40 @@ def outcome(fn):
         return ("raises", f"{type(e).__name__}: {e}")
 
 
+def same_outcome(a, b) -> bool:
+    """equal results, or the same error: rule messages list the members of an xor *set* in
+    iteration order, so error messages are compared as multisets of their comma/line separated
+    parts"""
+    if a == b:
+        return True
+    if a[0] == b[0] == "raises":
+        import re
+
+        def parts(m):
+            return sorted(x.strip() for x in re.split(r"[,\n]|: |[()]", m))
+
+        return parts(a[1]) == parts(b[1])
+    return False
+
+
 def run_shell(T, case, d, tag):
     def cmdline():
         return G.make_task(case, d / "in", T).cmdline
 
-    def argv():
-        got, exc = OBS.recorded_full(G.make_task(case, d / "in", T), d / f"cache-{tag}")
-        # the recorder creates no output files: the error of the output collection is part of
-        # the outcome, with the per-run cache directory name taken out
-        got = None if got is None else [
-            (a.replace(f"cache-{tag}", "cache") if isinstance(a, str) else a) for a in got]
-        return got, (None if exc is None else
-                     f"{type(exc).__name__}: {exc}".replace(f"cache-{tag}", "cache"))
-
-    return dict(cmdline=outcome(cmdline), argv=outcome(argv))
+    res = dict(cmdline=outcome(cmdline))
+    try:
+        task = G.make_task(case, d / "in", T)
+    except Exception as e:  # noqa
+        res["argv"] = res["run_error"] = ("raises", f"{type(e).__name__}: {e}")
+        return res
+    got, exc = OBS.recorded_full(task, d / f"cache-{tag}")
+    # the recorder creates no output files: the error of the output collection (or of the rule
+    # check) is part of the outcome, with the per-run cache directory name taken out
+    res["argv"] = ("ok", None if got is None else [
+        (a.replace(f"cache-{tag}", "cache") if isinstance(a, str) else a) for a in got])
+    res["run_error"] = ("ok", None) if exc is None else (
+        "raises", f"{type(exc).__name__}: {exc}".replace(f"cache-{tag}", "cache"))
+    return res
 
 
 def run_python(T, case, d, tag):
@@ -166,6 +213,9 @@ def compare(T, T2, case, d, leg, run):
     except Exception as e:  # noqa
         return [dict(signature=exception_signature(e, f"{leg}:second-unstructure-raises"),
                      observed=short(e), expected="a dictionary")]
+    for dd in (d1, d2):  # xor is a set of sets: its list form has no defined order
+        if isinstance(dd.get("xor"), list):
+            dd["xor"] = sorted((sorted(g, key=repr) for g in dd["xor"]), key=repr)
     if d1 != d2:
         keys = sorted(k for k in set(d1) | set(d2) if d1.get(k) != d2.get(k))
         recs.append(dict(signature=f"{leg}:dictionary-not-stable:{keys[0]}", observed=repr(d2)[:600],
@@ -174,7 +224,7 @@ def compare(T, T2, case, d, leg, run):
     o1, o2 = run(T, case, d, leg + "-a"), run(T2, case, d, leg + "-b")
     LAST["run"] = {k: v[0] for k, v in o1.items()}
     for k in o1:
-        if o1[k] != o2[k]:
+        if not same_outcome(o1[k], o2[k]):
             recs.append(dict(signature=f"{leg}:{k}-differs-after-round-trip", observed=o2[k],
                              expected=o1[k]))
             break
@@ -190,6 +240,8 @@ def check_case(case):
         try:
             if case["kind"] == "shell":
                 T, run = G.build(case["spec"]), run_shell
+            elif case["kind"] == "rules":
+                T, run = build_rules(case["spec"]), run_python
             else:
                 T, run = build_python(case["spec"]), run_python
         except Exception as e:  # noqa
@@ -204,8 +256,8 @@ def check_case(case):
         try:
             T2 = structure(dct)
         except Exception as e:  # noqa
-            fields = case["spec"]["fields" if case["kind"] == "shell" else "args"]
-            if any("requires" in f for f in fields) and "Requirement(name='requirements'" in str(e):
+            fields = case["spec"]["args" if case["kind"] == "python" else "fields"]
+            if any(f.get("requires") for f in fields) and "Requirement(name='requirements'" in str(e):
                 # defect model: the unstructured form {'requirements': [...]} of a requirement
                 # set is read back as a list of field names
                 sig = "requires-dictionary-form-read-back-as-field-names"
@@ -340,14 +392,36 @@ def python_case(draw):
     return dict(kind="python", spec=spec, values=values)
 
 
+@st.composite
+def rules_case(draw):
+    """a definition of the C31 generator plus one assignment from its value domains"""
+    from vlib.gen import rules as GR
+    from vlib.ref import rules as RR
+
+    spec = draw(GR.definitions())
+    if draw(st.integers(0, 2)) == 0:  # F-C32-1: also explore definitions without requirement sets
+        for f in spec["fields"]:
+            f["requires"] = []
+    values = {}
+    for f in spec["fields"]:
+        v = draw(st.sampled_from(RR.DOMAIN[f["kind"]]))
+        if not (isinstance(v, str) and v == RR.UNSET):
+            values[f["name"]] = v
+    return dict(kind="rules", spec=spec, values=values)
+
+
 def metadata_labels(case):
     spec = case["spec"]
-    fields = spec["fields"] if case["kind"] == "shell" else spec["args"]
+    fields = spec["args"] if case["kind"] == "python" else spec["fields"]
     labs = set()
     for f in fields:
-        for k in ("default", "help", "allowed_values", "requires"):
-            if k in f:
+        if "default" in f:
+            labs.add("meta_default")
+        for k in ("help", "allowed_values", "requires"):
+            if f.get(k):
                 labs.add("meta_" + k)
+        if case["kind"] == "rules" and f["kind"] not in ("str", "mbool"):
+            labs.add("meta_default")
         if case["kind"] == "shell":
             if f.get("position") is not None:
                 labs.add("meta_position")
@@ -365,8 +439,15 @@ def metadata_labels(case):
 
 
 def run(sh):
-    for kind, strat, (q, t) in (("shell", shell_case(), (500, 12000)),
-                                ("python", python_case(), (300, 8000))):
+    plan = [("shell", shell_case(), (500, 12000)), ("python", python_case(), (300, 8000))]
+    try:
+        import vlib.gen.rules  # noqa: F401
+        import vlib.ref.rules  # noqa: F401
+
+        plan.append(("rules", rules_case(), (160, 4000)))
+    except ImportError:
+        sh.note("C31 generator (vlib/gen/rules.py) not importable: kind 'rules' skipped")
+    for kind, strat, (q, t) in plan:
         def body(case):
             labs, nf = metadata_labels(case)
             sh.run_case(case, nontrivial=bool(labs) and nf >= 2,
